@@ -1,7 +1,7 @@
 (* Entry points evaluated by the extracted driver: one harness case -> one report line. *)
 From Coq Require Import Ascii String.
 From Coq Require Import List NArith ZArith QArith Bool Arith.
-From V Require Import Str Num Tok Tables Items Read Decode Bytes WellFormed Doc Case Paginate Pipeline Document TextSpec Checks Validate.
+From V Require Import Str Num Tok Tables Items Read Decode Bytes WellFormed Doc Case Paginate Pipeline Document TextSpec Checks Validate Assemble.
 Import ListNotations.
 Local Open Scope string_scope.
 Local Open Scope list_scope.
@@ -327,8 +327,65 @@ Definition run_c19 (id kind : str) (vals : sexp) : str :=
     end
   end.
 
+(* C17: ([c17] [id] (input file texts) (1 [assembled text] | 0 [class])) *)
+Fixpoint intersperse_page (l : list (list item)) : list item :=
+  match l with
+  | [] => []
+  | [x] => x
+  | x :: r => x ++ IPage :: intersperse_page r
+  end.
+
+Definition body_geoms (ts : list tok) : list (geom * bool) :=
+  match ts with
+  | TOpen :: r0 =>
+    match take_group r0 0 [] with
+    | Some (inner, _) => match elems inner with Some es => ext_geoms (S (length es)) es false | None => [] end
+    | None => []
+    end
+  | _ => []
+  end.
+
+Definition run_c17 (id : str) (inputs : list str) (out : sexp) : str :=
+  match out with
+  | SList [SNum [49%N]; SStr output] =>
+    let ts := lex output in
+    let model := assemble inputs in
+    let agree := match model with Some m => str_eqb m output | None => false end in
+    let ins := map (fun i => read_doc (lex i)) inputs in
+    let all_read := all_b (fun o => match o with Some _ => true | None => false end) ins in
+    let pds := flat_map (fun o => match o with Some pd => [pd] | None => [] end) ins in
+    let cl : nat :=
+       (if negb all_read then 8
+        else if Nat.eqb (wf_clause ts) 0 then
+          match read_assembled ts with
+          | None => 2
+          | Some pd =>
+            if negb (list_eqb item_eqb (pd_items pd) (intersperse_page (map pd_items pds))) then 3
+            else if negb (list_eqb (fun a b => geom_eqb (fst a) (fst b) && Bool.eqb (snd a) (snd b))
+                                   (body_geoms ts) (map (fun p => (pd_geom p, pd_landscape p)) pds)) then 4
+            else match inputs with [one] => if str_eqb one output then 0 else 5 | _ => 0 end
+          end
+        else 1)%nat in
+    line [kv "id" id; kv "tie" (s2l "0"); kv "agree" (bool_str agree);
+          kv "holds" (bool_str (Nat.eqb cl 0)); kv "clause" (nat_str cl);
+          kv "ninputs" (nat_str (length inputs)); kv "nitems" (nat_str (length (flat_map pd_items pds)))]
+  | SList [SNum [48%N]; SStr cls] =>
+    line [kv "id" id; kv "tie" (s2l "0"); kv "agree" (s2l "0"); kv "holds" (s2l "0"); kv "clause" (s2l "9");
+          kv "refused" (safe cls)]
+  | _ => line [kv "id" id; kv "bad" (s2l "out")]
+  end.
+
 Definition run_case' (e : sexp) : str :=
   match e with
+  | SList [SStr mode; SStr id; SList ins; out] =>
+    if str_eqb mode (s2l "c17") then
+      match mapO dStr ins with
+      | Some inputs => run_c17 id inputs out
+      | None => line [kv "id" id; kv "bad" (s2l "inputs")]
+      end
+    else if str_eqb mode (s2l "dbg") then
+      match dDoc (SList ins) with Some d => run_dbg id d | None => line [kv "id" id; kv "bad" (s2l "decode")] end
+    else run_case e
   | SList [SStr mode; SStr id; SStr kind; vals] =>
     if str_eqb mode (s2l "c19") then run_c19 id kind vals else run_case e
   | SList [SStr mode; SStr id; de; impl; extra] =>
